@@ -11,6 +11,8 @@ package main
 // in the current flags of both pilots (own statement of the conditions, cplCond) -- such a branch is straight-line in the property's sense.
 // Half of the programs are run on the bytes as patched by Finalize (label operands resolved or not), the other half
 // on the placeholders: a branch that is not taken must not care.
+// A program may also contain the block move MVN (at most two): the CPU then fetches the instruction's own start again
+// and again until the count runs out; the falsifier allows exactly that repetition and nothing else.
 // Tie: every program is also printed (calls, arguments, PC() before each call, refusals, final flags,
 // bytes) so that the check can have Coq replay it on Model/Emitter.v through the regenerated descriptors.
 
@@ -60,6 +62,7 @@ type cplMethod struct {
 	straight bool
 	hasLabel bool
 	cond     string // mnemonic, for a conditional branch
+	move     bool   // block move (MVN / MVP)
 	// width requirement by the name convention: 0 none, 8 / 16 operand bits; onX = index registers
 	immBits int
 	onX     bool
@@ -93,6 +96,10 @@ func cplMethods() []cplMethod {
 		if _, ok := cplCond[mn]; ok {
 			cm.cond = mn
 			cm.straight = true // as long as it is not taken
+		}
+		if mn == "MVN" || mn == "MVP" {
+			cm.move = true
+			cm.straight = true // repeats its own start, transfers control nowhere else
 		}
 		suf := ""
 		if i := strings.IndexByte(m.Name, '_'); i >= 0 {
@@ -210,6 +217,8 @@ type cplProg struct {
 	nIns    int
 	starts  []uint32
 	finalPC uint32
+	isMove  []bool // per accepted instruction: a block move (may be fetched repeatedly)
+	nMove   int
 	patched []byte // Bytes() after Finalize (label operands patched where the label resolved)
 	finErr  string
 	nBranch int
@@ -283,6 +292,31 @@ func (pl *cplPilot) step(code []byte) {
 	pl.ra.mem.trace = pl.ra.mem.trace[:0]
 	pl.r.cpu.Step()
 	pl.ra.cpu.Step()
+}
+
+// stepMove: a block move repeats itself; step the pilots until both have left it (bounded by the 16-bit count)
+func (pl *cplPilot) stepMove(code []byte, at uint32) {
+	pl.step(code)
+	for i := 0; i < 0x10000 && pl.alive; i++ {
+		a := uint32(pl.r.cpu.RK)<<16 | uint32(pl.r.cpu.PC)
+		b := uint32(pl.ra.cpu.RK)<<16 | uint32(pl.ra.cpu.PC)
+		if a != at && b != at {
+			return
+		}
+		func() {
+			defer func() {
+				if e := recover(); e != nil {
+					pl.alive = false
+				}
+			}()
+			if a == at {
+				pl.r.cpu.Step()
+			}
+			if b == at {
+				pl.ra.cpu.Step()
+			}
+		}()
+	}
 }
 
 // notTaken: would this conditional branch fall through in the pilot's current state?
@@ -461,13 +495,25 @@ func cplGen(r *cpuRng, id int, ms []cplMethod, straightIdx []int, maxlen int, en
 			if m.expectRefused(em.IsM16bit(), em.IsX16bit()) && r.n(100) < 85 {
 				continue // mostly pick calls the assembler accepts; sometimes a wrong-width one (must be refused)
 			}
+			if m.move && (p.nMove >= 2 || r.n(3) != 0) {
+				continue // a block move can take 65536 steps: at most two per program
+			}
 			c := cplCall{kind: 'I', name: m.name, args: cplRandArgs(r, m), pc: em.PC(), isIns: true}
 			c.refused, _ = cplCallMethod(em, m, c.args)
 			record(c)
 			if !c.refused {
 				p.nIns++
 				p.starts = append(p.starts, c.pc)
-				pl.step(em.Bytes())
+				if m.move {
+					p.nMove++
+					for len(p.isMove) < len(p.starts)-1 {
+						p.isMove = append(p.isMove, false)
+					}
+					p.isMove = append(p.isMove, true)
+					pl.stepMove(em.Bytes(), c.pc)
+				} else {
+					pl.step(em.Bytes())
+				}
 			}
 		}
 	}
@@ -477,6 +523,9 @@ func cplGen(r *cpuRng, id int, ms []cplMethod, straightIdx []int, maxlen int, en
 			record(cplCall{kind: 'L', args: []int64{lid}, pc: em.PC()})
 			em.Label(cplLabelName(lid))
 		}
+	}
+	for len(p.isMove) < len(p.starts) {
+		p.isMove = append(p.isMove, false)
 	}
 	p.flags = uint8(em.Flags())
 	p.bytes = append([]byte(nil), em.Bytes()...)
@@ -521,6 +570,8 @@ type cplRegs struct {
 	c, z, i, d, v, n   byte
 }
 
+var moveSteps int
+
 type cplOutcome struct {
 	fail    string
 	selfMod bool
@@ -535,17 +586,27 @@ func cplCheckRun(p *cplProg, mem *cpuMem, step func() (panicked bool, msg string
 		if at != p.starts[i] {
 			return cplOutcome{fail: fmt.Sprintf("instruction %d: CPU is about to fetch at %06x, the assembler reported the instruction start %06x", i, at, p.starts[i])}
 		}
-		mem.trace = mem.trace[:0]
-		if pan, msg := step(); pan {
-			return cplOutcome{fail: fmt.Sprintf("instruction %d at %06x: Step panicked: %s", i, at, msg)}
-		}
-		if len(mem.trace) == 0 || mem.trace[0].w || mem.trace[0].a != at {
-			return cplOutcome{fail: fmt.Sprintf("instruction %d: first bus access of the step is not the opcode fetch at %06x", i, at)}
-		}
-		for _, ev := range mem.trace {
-			if ev.kind == 0 && ev.w && ev.a >= lo && ev.a < hi {
-				return cplOutcome{selfMod: true} // the program overwrote itself: outside the property's hypothesis
+		// a block move is executed again and again from its own start (at most 65536 times); anything else once
+		for rep := 0; ; rep++ {
+			mem.trace = mem.trace[:0]
+			if pan, msg := step(); pan {
+				return cplOutcome{fail: fmt.Sprintf("instruction %d at %06x: Step panicked: %s", i, at, msg)}
 			}
+			if len(mem.trace) == 0 || mem.trace[0].w || mem.trace[0].a != at {
+				return cplOutcome{fail: fmt.Sprintf("instruction %d: first bus access of the step is not the opcode fetch at %06x", i, at)}
+			}
+			for _, ev := range mem.trace {
+				if ev.kind == 0 && ev.w && ev.a >= lo && ev.a < hi {
+					return cplOutcome{selfMod: true} // the program overwrote itself: outside the property's hypothesis
+				}
+			}
+			if !p.isMove[i] || pc() != at {
+				break
+			}
+			if rep >= 0x10000 {
+				return cplOutcome{fail: fmt.Sprintf("instruction %d at %06x: the block move is still repeating itself after 65536 steps", i, at)}
+			}
+			moveSteps++
 		}
 	}
 	if at := pc(); p.finalPC&0xFFFF != 0 && at != p.finalPC {
@@ -689,6 +750,7 @@ func cplCmd(args []string) int {
 		if p.finalPC&0xFFFF == 0 {
 			stats["ends_at_bank_end"]++
 		}
+		stats["block_moves"] += p.nMove
 		stats["branches_not_taken"] += p.nBranch
 		if p.nBranch > 0 {
 			stats["programs_with_branches"]++
@@ -756,6 +818,7 @@ func cplCmd(args []string) int {
 			}
 		}
 	}
+	stats["block_move_repetitions"] = moveSteps
 	stats["methods_straight"] = len(straightIdx)
 	stats["methods_excluded"] = len(excluded)
 	stats["methods_hit"] = len(methodHits)
